@@ -120,6 +120,13 @@ def _geometry(obs, case):
             lw = robotools.Trough("T", V, C, min_volume=0, max_volume=100000, initial_volumes=1000)
         nrows_ids = V
         trough = True
+    # the labware as constructed, or a deep copy / an unpickled copy of it (every third geometry each)
+    how = (nrows_ids + 2 * C) % 3
+    if how:
+        from vf.lab import clone
+
+        lw = clone(lw, "deepcopy" if how == 1 else "pickle")
+        obs.cls("cloned:" + ("deepcopy" if how == 1 else "pickle"))
     wells = lw.wells
     if wells.shape != (nrows_ids, C):
         obs.bad("C08/wells-shape", f"{case}: wells.shape={wells.shape}")
@@ -224,6 +231,10 @@ def _badid_case(obs, case):
     valid = [wid(i % rows, (i // rows) % cols) for i in range(nv)]
     ids = valid + [bad]
     label = case["label"]
+    # the volume for the non-existent well: 1 uL for all wells, or 0 uL for it (nothing would be pipetted - it is still not a well)
+    vform = (case["r"] + case["c"] + nv) % 3 if op in ("add", "remove", "aspirate", "dispense") else 0
+    vol1 = 1.0 if vform == 0 else ([1.0] * nv + [0.0] if vform == 1 else 0.0)
+    obs.cls("bad-well-volume:" + ("1" if vform == 0 else "0"))
     allowed = set()  # (rack, position) pairs a record may carry
 
     def pos(labware, w, is_trough, nrows_ids):
@@ -237,13 +248,13 @@ def _badid_case(obs, case):
         allowed.add(("T", pos(lw, w, trough, rows)))
     try:
         if op == "add":
-            lw.add(ids, 1.0, label=label)
+            lw.add(ids, vol1, label=label)
         elif op == "remove":
-            lw.remove(ids, 1.0, label=label)
+            lw.remove(ids, vol1, label=label)
         elif op == "aspirate":
-            wl.aspirate(lw, ids, 1.0, label=label)
+            wl.aspirate(lw, ids, vol1, label=label)
         elif op == "dispense":
-            wl.dispense(lw, ids, 1.0, label=label)
+            wl.dispense(lw, ids, vol1, label=label)
         elif op == "transfer_src":
             dst = [wid(i % 4, i // 4) for i in range(len(ids))]
             for w in dst[:-1]:
